@@ -551,7 +551,9 @@ class ExtractAtIndices(LinearOperator):
         start_ax_sp = int(np.sum(dims_of_sps[:space]))
         stop_ax_sp = start_ax_sp + dims_of_sps[space]
         for i, ax in enumerate(range(start_ax_sp, stop_ax_sp)):
-            inds[ax] = indices[i]
+            # plain lists: `np.add.at` on AnyArrays does not accept index
+            # tuples that contain numpy arrays
+            inds[ax] = np.asarray(indices[i]).tolist()
         self._inds = tuple(inds)
         self._capability = self.TIMES | self.ADJOINT_TIMES
 
